@@ -39,13 +39,28 @@ pub fn split_phonemes(sec: &str) -> Option<[String; 5]> {
 pub struct Corpus {
     pub lines: Vec<String>,
     pub sections: Vec<Vec<String>>,
+    /// the sample sentences quoted in the repository's own sources (short utterances: other utterance-length contexts)
+    pub extras: Vec<String>,
+}
+
+/// full-context labels that appear as string literals in /repo/src/lib.rs (SAMPLE_SENTENCE_1 / _2)
+fn sample_sentences() -> Vec<String> {
+    let src = std::fs::read_to_string("/repo/src/lib.rs").unwrap_or_default();
+    let mut out = Vec::new();
+    for piece in src.split('"') {
+        if piece.contains("/A:") && piece.contains("/K:") && !piece.contains(' ') && piece.parse::<jlabel::Label>().is_ok() {
+            out.push(piece.to_string());
+        }
+    }
+    out
 }
 
 impl Corpus {
     pub fn load() -> Self {
         let lines = corpus();
-        let sections = lines.iter().map(|l| split_sections(l).unwrap_or_else(|| die("corpus line without sections"))).collect();
-        Corpus { lines, sections }
+        let extras = sample_sentences();
+        let sections = lines.iter().chain(extras.iter()).map(|l| split_sections(l).unwrap_or_else(|| die("corpus line without sections"))).collect();
+        Corpus { lines, sections, extras }
     }
     /// A label whose 12 sections (and, inside the first, the five phonemes) are drawn independently.
     pub fn recombined(&self, rng: &mut Rng) -> String {
@@ -58,8 +73,13 @@ impl Corpus {
     }
     /// n labels: consecutive corpus lines, shuffled corpus lines, or recombined labels.
     pub fn utterance(&self, rng: &mut Rng, n: usize) -> Vec<String> {
-        match rng.below(3) {
-            0 => {
+        match rng.below(4) {
+            3 if !self.extras.is_empty() => {
+                // a run of the repository's sample sentences (short utterances, different utterance-level contexts)
+                let start = rng.below(self.extras.len());
+                (0..n).map(|i| self.extras[(start + i) % self.extras.len()].clone()).collect()
+            }
+            0 | 3 => {
                 let start = rng.below(self.lines.len().saturating_sub(n).max(1));
                 self.lines[start..(start + n).min(self.lines.len())].to_vec()
             }
